@@ -194,9 +194,18 @@ def _drive(case, root, fs, probes, sig):
             cols = step["columns"]
             if cols:
                 probes["columns_projection"] = 1
+            given = list(cols) if cols else cols
             got = _guard("read_parquet", lambda: read_parquet(paths["P"], filesystem=fs,
                                                               columns=cols), sig)
+            if cols != given:
+                raise Bad("columns-argument-mutated", f"read_parquet changed the caller's columns "
+                          f"list from {given} to {cols}")
             _compare(got, spec, model["P"], cols, "read_parquet", GeoDataFrame, sig)
+            if cols and step.get("twice", True):
+                # the same list object is used again (a caller-side constant)
+                got = _guard("read_parquet (same columns list again)",
+                             lambda: read_parquet(paths["P"], filesystem=fs, columns=cols), sig)
+                _compare(got, spec, model["P"], given, "read_parquet[2nd]", GeoDataFrame, sig)
         elif op == "read_dask":
             dss = [d for d in step["ds"] if d in model]
             if not dss:
@@ -224,11 +233,15 @@ def _drive(case, root, fs, probes, sig):
                 arg = os.path.join(root, "dk", "ds_*")
                 probes["read_dask_glob"] = 1
             sig["how"] = step["how"]
+            given = list(cols) if cols else cols
             ddf = _guard("read_parquet_dask",
                          lambda: read_parquet_dask(arg, filesystem=fs, columns=cols), sig)
             if not isinstance(ddf, DaskGeoDataFrame):
                 raise Bad("type", f"read_parquet_dask returned {type(ddf).__name__}")
             got = _guard("read_parquet_dask.compute", lambda: ddf.compute(), sig)
+            if cols != given:
+                raise Bad("columns-argument-mutated", f"read_parquet_dask changed the caller's "
+                          f"columns list from {given} to {cols}")
             # a list is read in the order given, a glob in sorted path order
             order = dss if step["how"] in ("list", "mixed") else sorted(dss)
             rows = [r for d in order for r in model[d]]
